@@ -562,6 +562,34 @@ func (c *Ctx) c15Report(loopFn *ssa.Function) {
 	}
 	errv := errorResult(read)
 	eb := errorEdgeBlocks(read)
+	if errv == nil {
+		// the read, the close and the report moved into a step helper that answers (message, ok): the loop must
+		// leave on ok == false, and the report is the helper's business, on the error edge of its own read
+		if inner, ebh := c.boolStepReader(flow.StaticCallee(read)); inner != nil {
+			h := flow.StaticCallee(read)
+			feb := falseEdgeBlocks(read)
+			key := fname(loopFn) + ":exit-on-read-error"
+			bad := len(feb) == 0
+			if bad {
+				r.Fail("R4", key, c.pos(read), "the outcome "+h.Name()+" reports for the per-iteration read is not tested")
+			}
+			for b := range feb {
+				if p := flow.PathAvoiding(loopFn, b.Instrs[0], func(in ssa.Instruction) bool { return in == ssa.Instruction(read) }, nil); p != nil && !bad {
+					bad = true
+					r.Fail("R4", key, c.pos(b.Instrs[0]), "after a read error the loop reads again from the same connection (undecodable input is not contained)", c.witness(p)...)
+				}
+			}
+			if !bad {
+				r.Ok("R4", key, c.pos(read), "no path from the edge on which "+h.Name()+" reported a failed read back to the read")
+			}
+			ok, at, why := c.reportOffered(h, errorResult(inner), func(b *ssa.BasicBlock) bool { return ebh[b] }, 0)
+			if at == nil {
+				at = inner
+			}
+			r.Check(ok, "R4", fname(loopFn)+":error-report", c.pos(at), "ErrorReporter.Error is offered the read error, guarded only by err!=nil, err!=io.EOF, err!=io.ErrUnexpectedEOF and the ErrorReporter interface test", why)
+			return
+		}
+	}
 	if errv == nil || len(eb) == 0 {
 		r.Fail("R4", fname(loopFn)+":read-error-edge", c.pos(read), "the error result of the per-iteration read is not tested against nil")
 		return
